@@ -101,7 +101,7 @@ fn mk_scoped<'a>(e: &'a [u8; 5], rid: i64, o: &'a [u8; 3]) -> ScopedPdu<'a> {
     ScopedPdu { engine_id: &e[..], pdu: SnmpPdu::GetRequest(SnmpGet { request_id: rid, vars: vec![oid(&o[..])] }) }
 }
 
-//@ C11,C14 quick timeout=1500 | DES (cut S9): as_localized(any 16-octet Kul, any salt seed), then TWO encrypts of a 35-octet scoped PDU with any boots/time: key == Kul[0..8], IV == Kul[8..16] xor salt, salt == boots||counter (counter +1 per message, wrapping), plaintext handed to CBC == scoped PDU || zero padding to 40 octets, both times
+//@ C11,C14 quick timeout=1500 | DES (cut S9): as_localized(any 20-octet (SHA-1 sized) Kul, any salt seed), then TWO encrypts of a 35-octet scoped PDU with any boots/time: key == Kul[0..8], IV == Kul[8..16] xor salt, salt == boots||counter (counter +1 per message, wrapping), plaintext handed to CBC == scoped PDU || zero padding to 40 octets, both times
 #[kani::proof]
 #[kani::unwind(18)]
 #[kani::stub(alloc::fmt::format, stub_format)]
@@ -109,7 +109,7 @@ fn mk_scoped<'a>(e: &'a [u8; 5], rid: i64, o: &'a [u8; 3]) -> ScopedPdu<'a> {
 #[kani::stub(cipher::InnerIvInit::inner_iv_slice_init, RecIv::rec_inner_iv_slice_init)]
 #[kani::stub(cipher::BlockEncryptMut::encrypt_padded_mut, RecEnc::rec_encrypt_padded_mut)]
 fn des_feed_twice() {
-    let kul: [u8; 16] = kani::any();
+    let kul: [u8; 20] = kani::any(); // SHA-1 sized localized key: key = octets 0..8, pre-IV = octets 8..16
     let seed: u32 = kani::any();
     unsafe {
         rand::QUEUE[0] = seed as u64;
@@ -303,7 +303,7 @@ macro_rules! decrypt_feed {
         #[kani::stub(cipher::AsyncStreamCipher::decrypt_b2b, RecStream::rec_decrypt_b2b)]
         #[kani::stub(<crate::snmp::msg::v3::ScopedPdu<'_> as core::convert::TryFrom<&[u8]>>::try_from, stub_scoped_try_from)]
         fn $name() {
-            let kul: [u8; 16] = kani::any();
+            let kul: [u8; 20] = kani::any();
             unsafe {
                 rand::QUEUE[0] = 0;
                 rand::DRAWN = 0;
